@@ -5,7 +5,7 @@ import math
 UNIT_LEN = ("um", "nm", "mm")
 UNIT_FIELD = ("mT", "uT", "T")
 UNIT_CUR = ("uA", "nA", "mA")
-LEN_FACTOR = {"um": 1.0, "nm": 1e3, "mm": 1e-3}  # value of 1 um in the unit
+LEN_FACTOR = {"um": 1.0, "nm": 1e3, "mm": 1e-3, "m": 1e-6}  # value of 1 um in the unit ("m" is used by C06/C01 only: it is not in C08's list of unit systems)
 FIELD_FACTOR = {"mT": 1.0, "uT": 1e3, "T": 1e-3}  # value of 1 mT in the unit
 CUR_FACTOR = {"uA": 1.0, "nA": 1e3, "mA": 1e-3}  # value of 1 uA in the unit
 
@@ -471,4 +471,15 @@ def add_lifecycles(rnd, scn, p_derived=0.08, p_entry=0.12, p_used=0.06, p_prior=
     if rnd.random() < p_sibling and not scn.get("sibling"):
         # a second solver alive on the same Device with another applied field (see maybe_sibling)
         maybe_sibling(rnd, scn, 1.0)
+    return scn
+
+
+def in_metres(scn):
+    """The same device stated in metres (coordinates of order 1e-6): absolute geometric tolerances that are
+    harmless for micrometre-sized numbers become comparable with the device."""
+    lu0 = scn["device"]["length_units"]
+    f = LEN_FACTOR["m"] / LEN_FACTOR[lu0]
+    scn["device"]["length_units"] = "m"
+    for k in ("xi", "lam", "d"):
+        scn["device"]["layer"][k] = float(f"{scn['device']['layer'][k] * f:.6g}")
     return scn
